@@ -223,6 +223,74 @@ def _orient_comparisons(tree):
     return tree
 
 
+def _monotone_lines(tree):
+    """spliced statements carry the line numbers of the helper they came from; rules that compare positions rely on
+    `earlier in the text = smaller line number`, so the statements of every function are renumbered to be strictly
+    increasing in document order (a statement keeps its line unless that would break the order)"""
+
+    def walk(body, cur):
+        for s in body:
+            ln = getattr(s, 'lineno', None)
+            if ln is None:
+                continue
+            if ln <= cur:
+                ast.increment_lineno(s, cur + 1 - ln)
+            cur = s.lineno
+            for fld in ('body', 'orelse', 'finalbody'):
+                b = getattr(s, fld, None)
+                if isinstance(b, list) and b and isinstance(b[0], ast.stmt) and not isinstance(s, (ast.FunctionDef, ast.AsyncFunctionDef, ast.ClassDef)):
+                    cur = walk(b, cur)
+            if isinstance(s, ast.Try):
+                for h in s.handlers:
+                    if getattr(h, 'lineno', 0) <= cur:
+                        ast.increment_lineno(h, cur + 1 - h.lineno)
+                    cur = walk(h.body, h.lineno)
+            cur = max(cur, max((getattr(n, 'lineno', 0) for n in ast.walk(s) if not isinstance(n, (ast.FunctionDef, ast.AsyncFunctionDef, ast.ClassDef)) or n is s), default=cur))
+        return cur
+
+    for fn in [n for n in ast.walk(tree) if isinstance(n, (ast.FunctionDef, ast.AsyncFunctionDef))]:
+        walk(fn.body, fn.lineno)
+    return tree
+
+
+def _split_tuple_assign(tree):
+    """normal form:  a, b = x, y   ->   a = x; b = y   when the targets are plain names none of which is read by a
+    value (then the element-wise order binds the same values)"""
+
+    def do(body):
+        out = []
+        for s in body:
+            for fld in ('body', 'orelse', 'finalbody'):
+                b = getattr(s, fld, None)
+                if isinstance(b, list) and b and isinstance(b[0], ast.stmt) and not isinstance(s, ast.ClassDef):
+                    setattr(s, fld, do(b))
+            if isinstance(s, ast.Try):
+                for h in s.handlers:
+                    h.body = do(h.body)
+            if (
+                isinstance(s, ast.Assign)
+                and len(s.targets) == 1
+                and isinstance(s.targets[0], (ast.Tuple, ast.List))
+                and isinstance(s.value, (ast.Tuple, ast.List))
+                and len(s.targets[0].elts) == len(s.value.elts)
+                and all(isinstance(t, ast.Name) for t in s.targets[0].elts)
+                and not any(isinstance(v, ast.Starred) for v in s.value.elts)
+            ):
+                tn = [t.id for t in s.targets[0].elts]
+                read = {n.id for v in s.value.elts for n in ast.walk(v) if isinstance(n, ast.Name)}
+                if len(set(tn)) == len(tn) and not (set(tn) & read):
+                    for t, v in zip(s.targets[0].elts, s.value.elts):
+                        out.append(ast.copy_location(ast.Assign(targets=[t], value=v, lineno=s.lineno), s))
+                    continue
+            out.append(s)
+        return out
+
+    for fn in [n for n in ast.walk(tree) if isinstance(n, (ast.FunctionDef, ast.AsyncFunctionDef))]:
+        fn.body = do(fn.body)
+    ast.fix_missing_locations(tree)
+    return tree
+
+
 def _collapse_temps(tree):
     """behaviour-preserving normal form applied to every parsed module: a local that is assigned once and read once, by
     the very next statement, as its returned value / test / assigned value is substituted into that statement
@@ -386,7 +454,7 @@ class Module:
         key = (path, self.digest)
         tree = _TREES.get(key)
         if tree is None:
-            tree = _TREES[key] = _collapse_temps(_orient_comparisons(_Mangle().visit(ast.parse(source, path))))
+            tree = _TREES[key] = _collapse_temps(_split_tuple_assign(_orient_comparisons(_Mangle().visit(ast.parse(source, path)))))
         self.tree = tree
         self.is_pkg = os.path.basename(path) == '__init__.py'
         self.imports = {}  # local name -> dotted target ('mod' or 'mod.sym')
@@ -586,6 +654,12 @@ class Program:
                         body.append(ast.Pass())
                     self.dissolved = getattr(self, 'dissolved', []) + [f.qname]
                     break
+        for mname in plans:
+            # the spliced bodies go through the statement-level normal forms once more (copies left by the splice)
+            m = self.modules[mname]
+            m.tree = _collapse_temps(_split_tuple_assign(m.tree))
+            ast.fix_missing_locations(m.tree)
+            _monotone_lines(m.tree)
         for m in self.modules.values():
             ast.fix_missing_locations(m.tree)
         self._inline_cache = {}
